@@ -71,6 +71,14 @@ CHECKS = {
             "of three long-named parties x 3 sizes x {-o, stdout}.",
             "Identity values from a seed-derived alphabet; names >= 12 bytes so chance occurrences in ciphertext are negligible (< 2^-70).",
             "DESIGN.md §6 C08"),
+    "C09": ("exploration", "E-GRID",
+            "exhaustive enumeration per untrusted-input surface, heap accounting on hostile header fields, and exhaustive enumeration of CLI argument vectors as real processes",
+            "Every byte string of length <=2 and every prefix of authentic files (both decrypt entry points), every message length 0..200/65535/65536/70000 for noise_decrypt, every length 0..80 for "
+            "the AEAD wrappers, every length 0..130 x character class plus single-character substitutions and insertions for encoded keys, every single-bit and boundary value of each chunk-header "
+            "field and every header bit under a counting allocator (peak heap below a fixed cap; exactly one 32 MiB scrypt allocation in password mode), and every argument vector of length <=3 "
+            "(quick) / <=4 (thorough) over a 28-token vocabulary under two environments: result or error value, exit status 0/1 with an Error: line, never a panic, signal or hang.",
+            "Keyring parser surface enumerated by C17; stdin is /dev/null and there is no controlling terminal; 30 s wall limit per process; thorough argv enumeration has an internal wall cap that is reported.",
+            "DESIGN.md §6 C09"),
     "C10": ("fault_enumeration", "E-ENV",
             "exhaustive fault injection: every fault kind at every read/write/flush call index, on top of bounded short-I/O schedules; CLI-level real I/O failures",
             "For every explored run and every call index k, each fault (Interrupted/Other on read, Ok(0)/Interrupted/Other on write, "
@@ -79,6 +87,14 @@ CHECKS = {
             "which is actually executed. Supplemented by real I/O failures through the CLI (/dev/full, closed pipe, missing directory, directory as input).",
             "At most one hard fault per execution; data values from seed-derived alphabets; CLI cases use the real CSPRNG so only verdicts (not bytes) are compared.",
             "DESIGN.md §6 C10"),
+    "C11": ("exploration", "E-GRID",
+            "exhaustive enumeration of a size x direction x mode x read-schedule grid under a counting allocator with read/write lag monitors; CLI streams with RSS from wait4",
+            "Both directions x {chunk loop, key mode, password mode} x sizes n*64KiB+d (n up to 64; thorough 1024 and 16384 = 1 GiB) x {64 KiB, 1 KiB} pieces from non-allocating synthetic sources into "
+            "parsing/counting sinks: peak live heap must be identical (+-4 KiB) for all sizes >= 2 chunks and below a fixed cap, and every chunk's output must complete before more than two further "
+            "chunks of input were consumed (measured in chunks of the actual stream and in bytes). CLI: all four streaming commands fed 8/64 MiB (thorough up to 256 MiB) through stdin with a short first "
+            "write: peak RSS must not grow with the size and output must keep up with input.",
+            "Extrapolation beyond the largest size by the loop-state-independence argument; per-thread heap accounting.",
+            "DESIGN.md §6 C11"),
     "C15": ("exploration", "E-GRID",
             "exhaustive enumeration of (key x password x salt), password pairs, all 672 single-bit changes and string shapes against the REF implementation of the documented locked-key format",
             "lock_private_key/unlock_private_key compiled from the working tree: Rust lock == REF lock byte for byte; round trip both ways between Rust and REF (incl. non-clamped keys); "
@@ -88,7 +104,7 @@ CHECKS = {
             "DESIGN.md §6 C15"),
     "C17": ("exploration", "E-GRID",
             "exhaustive enumeration of line-token sequences, decorated lines, line-shape grid, tool-written names and key strings against a reference reading of the keyring format",
-            "Every sequence of <=6 (quick) / <=7 (thorough) lines over a 13-token alphabet, every sequence of <=3/4 decorated lines, a single-line shape grid (every ASCII length 0..140 followed by "
+            "Every sequence of <=6 (quick) / <=7 (thorough) lines over a 14-token alphabet, every sequence of <=3/4 decorated lines, a single-line shape grid (every ASCII length 0..140 followed by "
             "multi-byte characters, in every line role), the serialize->parse round trip for every name of <=3 characters over a 9-character alphabet plus boundary lengths, and every "
             "single-character substitution / checksum perturbation of encoded public keys: the real parser (compiled from the working tree) must never crash, must reject texts that "
             "unambiguously violate a necessary condition of the statement, must accept the documented well-formed subset with exactly the written entries, and lookups must agree with REF.",
